@@ -30,16 +30,19 @@ pub fn run_plan(
     global_last: &mut Option<u8>,
     stats: &mut Stats,
     watchdog_secs: Option<u64>,
+    no_park: bool,
 ) -> Result<PlanOutcome, String> {
     let mut runner = Runner::new(*global_last);
+    runner.set_no_park(no_park);
     if let Some(w) = watchdog_secs {
         runner.set_watchdog(w);
     }
     let (res, gl) = runner.run(plan)?;
     *global_last = gl;
     let judged = if res.blocked {
-        // threads are stuck: no isolated reference can be trusted to be
-        // isolated any more; the engine's own verdict stands
+        // threads are stuck (and may hold a lock of the library): no
+        // reference can be computed in this process any more; what L1 saw
+        // before the block stands, the rest of the run is undecided
         Judged { violations: res.violations.clone(), nontrivial: false }
     } else {
         judge(&res, plan.ref_per_event, plan.ref_process, stats)?
@@ -137,6 +140,8 @@ pub struct ShardArgs {
     pub thorough: bool,
     pub out: String,
     pub dump_hashes: bool,
+    pub no_park: bool,
+    pub part: u64,
 }
 
 pub fn sample_text(plan: &Plan, po: &PlanOutcome) -> String {
@@ -157,10 +162,16 @@ pub fn shard_main(a: ShardArgs) -> Result<i32, String> {
     let mut global_last: Option<u8> = None;
     let out = Path::new(&a.out);
     fs::create_dir_all(out).map_err(|e| e.to_string())?;
-    let tag = format!("{:02}", a.offset);
+    let tag = if a.part == 0 {
+        format!("{:02}", a.offset)
+    } else {
+        format!("{:02}p{}", a.offset, a.part)
+    };
+    let mut blocked_at: Option<(u64, String)> = None;
     let mut samples: Vec<String> = Vec::new();
     let mut hashes: Vec<(u64, u64)> = Vec::new();
     let mut found: Option<(u64, Plan, Vec<Violation>, String)> = None;
+    let timing = std::env::var("VERIF_TIMING").is_ok();
 
     let mut idx = a.from + ((a.offset + a.stride - (a.from % a.stride)) % a.stride);
     while idx < a.to {
@@ -173,8 +184,22 @@ pub fn shard_main(a: ShardArgs) -> Result<i32, String> {
         if g.cfg.personality == 5 {
             stats.faults[8] += 1;
         }
-        let po = run_plan(&g.plan, &mut global_last, &mut stats, None)
+        let t_run = Instant::now();
+        let po = run_plan(&g.plan, &mut global_last, &mut stats, None, a.no_park)
             .map_err(|e| format!("run idx {}: {}", idx, e))?;
+        if timing && t_run.elapsed().as_millis() >= 5 {
+            eprintln!(
+                "TIMING idx={} ms={} events={} churned={}",
+                idx,
+                t_run.elapsed().as_millis(),
+                po.res.events.len(),
+                po.res.churned
+            );
+        }
+        if po.res.blocked {
+            // undecided run; threads are stuck, this process has to end
+            blocked_at = Some((idx, po.res.blocked_what.clone()));
+        }
         if a.dump_hashes {
             hashes.push((idx, po.log_hash));
         }
@@ -184,6 +209,9 @@ pub fn shard_main(a: ShardArgs) -> Result<i32, String> {
         if !po.judged.violations.is_empty() {
             let log = sample_text(&g.plan, &po);
             found = Some((idx, g.plan.clone(), po.judged.violations.clone(), log));
+            break;
+        }
+        if blocked_at.is_some() {
             break;
         }
         idx += a.stride;
@@ -233,6 +261,9 @@ pub fn shard_main(a: ShardArgs) -> Result<i32, String> {
                 arr(viols.iter().map(violation_json).collect()),
             );
         1
+    } else if let Some((bidx, what)) = &blocked_at {
+        o = o.num("blocked_idx", *bidx).str("blocked_what", what);
+        3
     } else {
         0
     };
@@ -259,7 +290,10 @@ pub fn replay_session(
     let mut all: Vec<Violation> = Vec::new();
     let mut h = crate::prng::Fnv::default();
     for (i, p) in session.plans.iter().enumerate() {
-        let po = run_plan(p, &mut gl, &mut stats, watchdog_secs)?;
+        let po = run_plan(p, &mut gl, &mut stats, watchdog_secs, false)?;
+        if po.res.blocked {
+            text.push_str(&format!("UNDECIDED (blocked): {}\n", po.res.blocked_what));
+        }
         h.u64(po.log_hash);
         text.push_str(&format!("== run {} ==\n", i));
         for e in &po.res.events {
@@ -316,11 +350,22 @@ pub fn main_plan(seed: u64, idx: u64, thorough: bool, main: bool) -> Plan {
 }
 
 /// One run with T0 = main thread, in THIS process (call once per process).
-pub fn mainrun(seed: u64, idx: u64, thorough: bool, out: &str, main: bool) -> Result<i32, String> {
+pub fn mainrun(
+    seed: u64,
+    idx: u64,
+    thorough: bool,
+    out: &str,
+    main: bool,
+    no_park: bool,
+) -> Result<i32, String> {
     let plan = main_plan(seed, idx, thorough, main);
     let mut stats = Stats::new();
     let mut gl = None;
-    let po = run_plan(&plan, &mut gl, &mut stats, None)?;
+    let po = run_plan(&plan, &mut gl, &mut stats, None, no_park)?;
+    if po.res.blocked && po.judged.violations.is_empty() {
+        println!("BLOCKED {}", po.res.blocked_what);
+        return Ok(3);
+    }
     println!(
         "MAINRUN idx={} events={} loghash={:016x} nontrivial={} leak={} inherit={} stale={} ops={} reads={} faults={}",
         idx,
@@ -356,6 +401,8 @@ pub fn mainshard(a: ShardArgs, main: bool) -> Result<i32, String> {
     let mut sums: std::collections::BTreeMap<String, u64> = Default::default();
     let mut hashes: BTreeSetU64 = Default::default();
     let mut viol: Option<(u64, String, String, String)> = None;
+    let mut undecided = 0u64;
+    let mut no_park = a.no_park;
     let mut idx = a.from + ((a.offset + a.stride - (a.from % a.stride)) % a.stride);
     while idx < a.to {
         let mut cmd = std::process::Command::new(&exe);
@@ -372,9 +419,20 @@ pub fn mainshard(a: ShardArgs, main: bool) -> Result<i32, String> {
         if crate::gen::yields_enabled() {
             cmd.arg("--yields");
         }
+        if no_park {
+            cmd.arg("--no-park");
+        }
         let o = cmd.output().map_err(|e| format!("spawn mainrun: {}", e))?;
         let so = String::from_utf8_lossy(&o.stdout).to_string();
         let code = o.status.code();
+        if code == Some(3) {
+            // undecided: an operation blocked on a thread parked mid-operation;
+            // the remaining runs of this shard never park mid-operation
+            undecided += 1;
+            no_park = true;
+            idx += a.stride;
+            continue;
+        }
         if code != Some(0) && code != Some(1) {
             return Err(format!(
                 "mainrun idx {} ended with status {:?}: {}{}",
@@ -418,6 +476,7 @@ pub fn mainshard(a: ShardArgs, main: bool) -> Result<i32, String> {
     let mut o = Obj::new()
         .num("shard", a.offset)
         .num("runs", runs)
+        .num("undecided_blocked", undecided)
         .num("distinct_loghashes", hashes.len())
         .num("wall_s", format!("{:.3}", t0.elapsed().as_secs_f64()));
     for (k, v) in &sums {
